@@ -262,6 +262,9 @@ impl<B> Flow<B, SendRequest> {
     pub fn write(&mut self, output: &mut [u8]) -> Result<usize, Error> {
         match &mut self.inner.call {
             CallHolder::WithoutBody(v) => v.write(output),
+            // Once the prelude is written, there is nothing more to write in this state.
+            // Writing an empty input to the call would end the request body.
+            CallHolder::WithBody(v) if !v.is_prelude() => Ok(0),
             CallHolder::WithBody(v) => v.write(&[], output).map(|r| r.1),
             _ => unreachable!(),
         }
